@@ -14,7 +14,7 @@ def make_case(rng, qa, A, B=None, hdrA=None, hdrB=None, fail_at=None, also_table
 
 
 def model_arg(c, hdr_out=None):
-    return qmodel.enc_run(0, c['qa'], hdr_out, c['A'], c['B'], c.get('fail_at'))
+    return qmodel.enc_run(0, c['qa'], hdr_out, c.get('A_model') or c['A'], c['B'], c.get('fail_at'))
 
 
 def canon_model(o):
@@ -59,7 +59,7 @@ def engine_rel(c, e, g):
     if 'pulls_le' in c.get('tags', ()):
         if g['pulls'] > e['pulls']:
             return False
-    elif not c.get('endless') and e['pulls'] != g['pulls']:
+    elif e['pulls'] != g['pulls']:
         return False
     if c.get('also_table') and 'table' in g and c.get('fail_at') is None:
         t = g['table']
